@@ -125,6 +125,12 @@ def build_world(ctx, rng, base, git):
         os.environ["XDG_CONFIG_HOME"] = str(xdg)
         (proj / "notes.scratch").write_text("personal notes\n")
         (proj / "docs2" / "tmp.scratch").write_text("t = 1\n")
+        # names typed with combining accents (as macOS tools write them): Git lists them byte for byte, ignored all the same
+        (proj / "cache-cafe\u0301").mkdir()
+        (proj / "cache-cafe\u0301" / "blob.py").write_text("b = 1\n")
+        (proj / "docs2" / "re\u0301sume\u0301.gen.py").write_text("r = 1\n")
+        with open(top / ".gitignore", "a", encoding="utf-8") as fp:
+            fp.write("cache-cafe\u0301/\n*.gen.py\n")
         ignored = {"gen.ign", "build/out.py", "docs2/also.ign"}
         trees.git(top, "add", "-A", check=False)
         trees.git(top, "commit", "-q", "-m", "init", check=False)
